@@ -4,7 +4,7 @@ import vlib, adef
 from checks import gen_common, addr_common as ac
 
 RULE = ("object trees generated to NEARLY collide (addresses and block offsets from a pool of 8 values, strides 0/+-1/+-2/+-3/4/+-8, "
-        "counts 1..4, self-collision via stride 0, nesting depth <= 3, repeated blocks, register/command refs with and without "
+        "counts 0..4, self-collision via stride 0, nesting depth <= 3, repeated blocks, register/command refs with and without "
         "address/repeat override, block refs, mixed kinds, allow flags on one/both objects and on the ref itself), rendered as "
         "DSL/JSON/YAML/TOML, run through the REAL transform_*; the MIR of the real front end is parsed and BOTH the Coq model "
         "(addr_check = address_types_* + lowering + addresses_non_overlapping) and the Coq SPEC (instances/collision) are "
@@ -22,7 +22,8 @@ TYPES = ["i64", "i32", "i16"]
 def gen_repeat(rng, p=0.45):
     if rng.random() > p:
         return None
-    return {"count": rng.choice([1, 2, 2, 3, 3, 4]), "stride": rng.choice(STRIDES)}
+    # count 0 is legal: the object (or every object of the block) then has NO instance and can collide with nothing
+    return {"count": rng.choice([0, 1, 2, 2, 3, 3, 4]), "stride": rng.choice(STRIDES)}
 
 
 def gen_flag(rng):
